@@ -426,12 +426,46 @@ def P18():
     )
 
 
+def P19():
+    """Nested powers in the PROCESS model (quadratic drag v*sqrt(v^2), |u + w| written as sqrt((u+w)^2)): the
+    process and control Jacobians contain sign(v)-like factors that an assumption-violating rewrite flattens."""
+    v, u, w, dt = V("v"), V("u"), V("w"), V("dt")
+    return Program(
+        id="P19-powers",
+        state=["v", "u"],
+        control=["w"],
+        calibration=[],
+        update={"v": v - dt * v * X.sqrt(v * v) + w * dt, "u": u + dt * X.sqrt((u + w) * (u + w))},
+        process_noise={"w": 0.25},
+        sensors={"mag": {"m": X.sqrt(v * v) + u}},
+        sensor_noise={"mag": {"m": 0.5}},
+        note="sqrt of a square in state update, process Jacobian, control Jacobian and sensor",
+    )
+
+
+def P20():
+    """Angle wrap 2*atan(tan(./2)) in an EKF-safe (differentiable) model: an inverse-function cancellation is only
+    visible when the heading leaves (-pi, pi]."""
+    hd, x, om, dt = V("heading"), V("x"), V("omega"), V("dt")
+    return Program(
+        id="P20-wrap",
+        state=["heading", "x"],
+        control=["omega"],
+        calibration=[],
+        update={"heading": 2 * X.atan(X.tan((hd + om * dt) / 2)), "x": x + dt * X.cos(hd)},
+        process_noise={"omega": 0.25},
+        sensors={"compass": {"c": hd + x}},
+        sensor_noise={"compass": {"c": 0.5}},
+        note="wrapped heading",
+    )
+
+
 def quick_programs():
     return [P1(), P3(), P8()]
 
 
 def all_fixed():
-    return [P1(), P2(), P3(), P7(), P8(), P10(), P12(), P13(), P14(), P15(), P16(), P17()]
+    return [P1(), P2(), P3(), P7(), P8(), P10(), P12(), P13(), P14(), P15(), P16(), P17(), P19(), P20()]
 
 
 def catalogue():
